@@ -158,7 +158,7 @@ Proof.
   assert (Hsafe : forall j ds, has st j -> PI j -> Forall (cov_rd st j) ds ->
                                Forall (safe_rd st PC PR PI) ds).
   { intros j ds Hj Hpj Hc. eapply Forall_impl; [|exact Hc]. intros x Hx.
-    destruct x as [m|c|r|c r]; simpl in *; try exact I.
+    destruct x as [m|c|r|c r|]; [| | | |simpl in *; contradiction]; simpl in *; try exact I.
     destruct Hx as (He & Hm). split; [|split; [exact I|exact Hm]].
     unfold PI. apply mem_node_false. intros Hin.
     apply (proj1 (mem_node_false _ _) Hpj). eapply Hclosed; eauto. }
@@ -192,7 +192,7 @@ Proof.
                                   In (a, node_of j) (s_edges st')).
         { intros a Ha. apply (cl_edges _ _ _ CL). split; [exact Ha|]. simpl. split; [|exact Hr].
           apply mem_node_false. intros Hin. apply (proj1 (mem_node_false _ _) Hr). eapply Hclosed; eauto. }
-        destruct x as [m|c|r|c r]; simpl in *.
+        destruct x as [m|c|r|c r|]; [| | | |simpl in *; contradiction]; simpl in *.
         -- destruct Hx as (He & Hm'). split; [now apply Hkeep|].
            apply Hhas. split; [exact Hm'|].
            apply mem_node_false. intros Hin. apply (proj1 (mem_node_false _ _) Hr). eapply Hclosed; eauto.
